@@ -17,6 +17,7 @@ import (
 
 	"go.uber.org/zap"
 	"google.golang.org/grpc"
+	"google.golang.org/grpc/status"
 	"google.golang.org/protobuf/types/known/emptypb"
 
 	"github.com/ozontech/seq-db/logger"
@@ -39,6 +40,7 @@ type world struct {
 	mu       sync.Mutex
 	script   map[string][]bool // host -> outcome of its n-th call (default: ok)
 	hang     map[string]int    // host -> 1-based index of the call that blocks until the request context is done
+	slowMs   int               // > 0: a hanging call answers after slowMs (with its scripted outcome) unless its context ends first
 	ncalls   map[string]int
 	events   []string // "S n" shuffle, "V shard ok", "C host ok"
 	calls    []call
@@ -64,10 +66,17 @@ func (f *fake) Bulk(ctx context.Context, in *storeapi.BulkRequest, _ ...grpc.Cal
 	hang := w.hang[f.host] == n+1
 	w.mu.Unlock()
 	if hang {
-		<-ctx.Done() // a replica that does not answer before the request deadline
-		ok = false
+		if w.slowMs > 0 {
+			select {
+			case <-ctx.Done():
+			case <-time.After(time.Duration(w.slowMs) * time.Millisecond): // a slow replica: answers late, but answers
+			}
+		} else {
+			<-ctx.Done() // a replica that does not answer before the request deadline
+		}
 	}
-	if ctx.Err() != nil {
+	ctxErr := ctx.Err()
+	if ctxErr != nil {
 		ok = false // a real gRPC call on a finished context fails
 	}
 	w.mu.Lock()
@@ -75,6 +84,9 @@ func (f *fake) Bulk(ctx context.Context, in *storeapi.BulkRequest, _ ...grpc.Cal
 	same := in.Count == w.payload.Count && bytes.Equal(in.Docs, w.payload.Docs) && bytes.Equal(in.Metas, w.payload.Metas)
 	w.calls = append(w.calls, call{f.host, ok, same})
 	w.events = append(w.events, fmt.Sprintf("C %s %s", f.host, vh.B(ok)))
+	if ctxErr != nil {
+		return nil, status.FromContextError(ctxErr).Err() // what a gRPC client returns: code Canceled / DeadlineExceeded
+	}
 	if !ok {
 		return nil, errors.New("scripted failure")
 	}
@@ -87,6 +99,7 @@ type tcase struct {
 	script                   map[string][]bool // host -> outcomes
 	deadlineMs               int               // > 0: the request context carries this deadline
 	hang                     map[string]int    // host -> 1-based call index that blocks until the deadline
+	slowMs                   int               // > 0: hanging calls answer after slowMs instead (no deadline needed)
 }
 
 func (c tcase) String() string {
@@ -108,7 +121,7 @@ func (c tcase) String() string {
 			sb.WriteString(vh.B(b))
 		}
 	}
-	if c.deadlineMs > 0 {
+	if c.deadlineMs > 0 || c.slowMs > 0 {
 		fmt.Fprintf(&sb, " deadline=%d hang=", c.deadlineMs)
 		for i, h := range vh.SortedKeys(c.hang) {
 			if i > 0 {
@@ -118,6 +131,9 @@ func (c tcase) String() string {
 		}
 		if len(c.hang) == 0 {
 			sb.WriteByte('-')
+		}
+		if c.slowMs > 0 {
+			fmt.Fprintf(&sb, " slow=%d", c.slowMs)
 		}
 	}
 	return sb.String()
@@ -144,6 +160,9 @@ func parseCase(line string) (tcase, error) {
 		var hang string
 		fmt.Sscanf(line[i:], " deadline=%d hang=%s", &c.deadlineMs, &hang)
 		c.hang = map[string]int{}
+		if j := strings.Index(line, " slow="); j >= 0 {
+			fmt.Sscanf(line[j:], " slow=%d", &c.slowMs)
+		}
 		for _, h := range strings.Split(hang, ";") {
 			if kv := strings.SplitN(h, ":", 2); len(kv) == 2 {
 				var n int
@@ -191,7 +210,7 @@ var breakerCfg = circuitbreaker.Config{
 
 // run executes one case on the real client and returns (acked, events).
 func run(c tcase) (bool, *world) {
-	w := &world{script: c.script, hang: c.hang, ncalls: map[string]int{}}
+	w := &world{script: c.script, hang: c.hang, slowMs: c.slowMs, ncalls: map[string]int{}}
 	clients := map[string]storeapi.StoreApiClient{}
 	for _, t := range []struct {
 		tier string
@@ -631,6 +650,44 @@ func main() {
 				cases = append(cases, c)
 			}
 		}
+		// a slow replica next to a failing one, then a retry on which the failing one accepts: the slow call must still
+		// count only by its own answer (an interrupted or abandoned call is not an accepted one)
+		for _, top := range [][4]int{{0, 0, 1, 2}, {0, 0, 1, 3}, {1, 2, 1, 2}, {0, 0, 2, 2}} {
+			for slowIdx := 0; slowIdx < top[3]; slowIdx++ {
+				for _, tier := range []string{"h", "c"} {
+					if tier == "c" && (top[0] == 0 || slowIdx >= top[1]) {
+						continue
+					}
+					c := tcase{coldS: top[0], coldR: top[1], hotS: top[2], hotR: top[3], script: map[string][]bool{}, slowMs: 25, hang: map[string]int{hostName(tier, 0, slowIdx): 1}}
+					R := top[3]
+					if tier == "c" {
+						R = top[1]
+					}
+					for r := 0; r < R; r++ {
+						if r != slowIdx {
+							c.script[hostName(tier, 0, r)] = []bool{false, true, true}
+						}
+					}
+					for k := 0; k < 6; k++ {
+						c.perms = append(c.perms, rng.Perm(max(top[2], 1)))
+					}
+					cases = append(cases, c)
+				}
+			}
+		}
+		for i := 0; i < o.Pick(20, 300); i++ {
+			c := genCase(rng, 2, 3)
+			c.slowMs = 10 + rng.Intn(20)
+			c.hang = map[string]int{}
+			for k := 0; k < 1+rng.Intn(2); k++ {
+				tier, S, R := "h", c.hotS, c.hotR
+				if c.coldS > 0 && rng.Bool() {
+					tier, S, R = "c", c.coldS, c.coldR
+				}
+				c.hang[hostName(tier, rng.Intn(S), rng.Intn(R))] = 1 + rng.Intn(2)
+			}
+			cases = append(cases, c)
+		}
 		for i := 0; i < o.Pick(12, 200); i++ {
 			c := genCase(rng, 2, 3)
 			c.deadlineMs = 30 + rng.Intn(40)
@@ -648,6 +705,9 @@ func main() {
 		req, impl, tags := toModel(c, acked, w)
 		if c.deadlineMs > 0 {
 			tags = append(tags, "deadline=1")
+		}
+		if c.slowMs > 0 {
+			tags = append(tags, "slow=1")
 		}
 		anyFail := false
 		for _, cl := range w.calls {
